@@ -1,8 +1,9 @@
 import AsModel.Syntax
 /-
 The fragment of Rust's values the expansion touches (DESIGN.md section 3.5).
-References and boxes are explicit so that `*` has an exact meaning; every other
-observer looks through references.
+Smart pointers are explicit so that `*` has an exact meaning.  Values contain no
+references of their own: the references the expansion creates (`&expr`, bindings under
+`match &expr`) are tracked as a depth next to the value (`RV` in `Exec.lean`).
 -/
 namespace AsModel
 
@@ -19,17 +20,10 @@ inductive Val
   | setv (vs : List Val)                   -- a set collection (in iteration order); `Debug` prints braces
   | map (keys : List Val) (vals : List Val)
   | box (v : Val)                          -- Box / Rc / Arc
-  | ref (v : Val)                          -- a shared reference
   deriving Repr, Inhabited
 
-/-- Remove outer references (what patterns, `Debug`, `PartialEq`, `PartialOrd` look through). -/
-def Val.strip : Val → Val
-  | .ref v => v.strip
-  | v => v
-
-/-- Remove outer references and smart pointers (auto-deref of `.field`, `.method()`, `[i]`). -/
+/-- Remove outer smart pointers (auto-deref of `.field`, `.method()`, `[i]`, `as_slice`, `len`, `get`). -/
 def Val.autoDeref : Val → Val
-  | .ref v => v.autoDeref
   | .box v => v.autoDeref
   | v => v
 
@@ -40,13 +34,9 @@ def Val.elems? (v : Val) : Option (List Val) :=
   | .setv vs => some vs
   | _ => none
 
-def Val.isRef : Val → Bool
-  | .ref _ => true
-  | _ => false
-
-/-- One `*`: strips one reference or one smart-pointer layer; anything else does not type-check. -/
+/-- One `*` applied to a value that is not behind a reference: strips one smart-pointer
+layer; anything else does not type-check. -/
 def Val.deref1 : Val → Option Val
-  | .ref v => some v
   | .box v => some v
   | _ => none
 
